@@ -379,7 +379,7 @@ func (n *ForNode) renderForLoop(w io.Writer, ctx *RenderContext, seq interface{}
 
 	// A pointer to a list, map or string is iterated as what it points to (as it is
 	// when printed or when one of its members is read)
-	for val.Kind() == reflect.Ptr && !val.IsNil() {
+	for depth := 0; depth < 4 && val.Kind() == reflect.Ptr && !val.IsNil(); depth++ {
 		switch val.Elem().Kind() {
 		case reflect.Slice, reflect.Array, reflect.Map, reflect.String, reflect.Ptr:
 			val = val.Elem()
@@ -1674,7 +1674,10 @@ func (n *PrintNode) Render(w io.Writer, ctx *RenderContext) error {
 
 	// Check if result is a callable for macros
 	if callable, ok := result.(func(io.Writer) error); ok {
-		// Execute the callable directly
+		// Execute the callable directly (a nil one prints nothing)
+		if callable == nil {
+			return nil
+		}
 		return callable(w)
 	}
 
